@@ -148,6 +148,7 @@ type OracleState struct {
 	havePrev  bool
 	prevBytes []byte
 	rawPart   bool // the history wrote partition metadata as raw bytes (finding D7's trigger)
+	afterFault bool // a store failure happened earlier in the history: the header's data-size accounting may be stale for good (as after a crash)
 	foreign   bool // the image was loaded (written by someone else): a free slot may carry a number in use
 	expect    map[uint32]expectObj
 	launch    []byte
@@ -377,7 +378,7 @@ func oracleC03(e *Env, st *OracleState, i int, op *Op, res string) *Violation {
 		if !d.Used {
 			continue
 		}
-		if d.Off < h.DataOff || d.Off+d.Size > h.DataOff+h.DataSize || d.Size < 0 {
+		if (d.Off < h.DataOff || d.Off+d.Size > h.DataOff+h.DataSize || d.Size < 0) && !st.afterFault {
 			return &Violation{Prop: "C03", Key: "C03:outside-data-section", What: fmt.Sprintf("object %d [%d,+%d) outside data section [%d,+%d)", d.ID, d.Off, d.Size, h.DataOff, h.DataSize), Op: i}
 		}
 		if d.Size > 0 && d.Off+d.Size > int64(len(b)) {
@@ -480,6 +481,9 @@ func oracleC03(e *Env, st *OracleState, i int, op *Op, res string) *Violation {
 					return false
 				}
 				for k := h.DataOff; k < int64(len(b)); k++ {
+					if k >= h.DOff && k < h.DOff+h.DSize {
+						continue // another writer's layout: the table lies behind the data section and is rewritten
+					}
 					if b[k] != prevBytes[k] && !(op.Zero && inDeleted(k)) {
 						return &Violation{Prop: "C03", Key: "C03:zeroing-overrun", What: fmt.Sprintf("delete changed byte %d outside the deleted object(s)", k), Op: i}
 					}
@@ -494,6 +498,9 @@ func oracleC03(e *Env, st *OracleState, i int, op *Op, res string) *Violation {
 			if d.Used && d.Off+d.Size > end {
 				end = d.Off + d.Size
 			}
+		}
+		if h.DOff >= h.DataOff && h.DOff+585*h.Total > end {
+			end = h.DOff + 585*h.Total // the table lies behind the data section: the file ends with the table
 		}
 		if int64(len(b)) != end {
 			return &Violation{Prop: "C03", Key: "C03:compact-end", What: fmt.Sprintf("after compaction file length %d, last live end %d", len(b), end), Op: i}
